@@ -172,15 +172,45 @@ def contracts():
                 ]),
         "new": FnSpec(ret="r", sig="""
     ensures r matches Ok(rl) ==> rl.wf_limits() && rl.log().len() == 0, //@C09.new_wf,C19.new_wf
+        // every configured limit is among the limits the limiter checks (none is dropped, merged away or replaced)
+        r matches Ok(rl) ==> forall|k: int| 0 <= k < raw_limits@.len() ==> has_limit(rl.limits@, #[trigger] raw_limits@[k]), //@C09.every_configured_limit_is_enforced
 """, loops={1: """
     invariant all_positive(limits@),
-"""},
+        forall|k: int| 0 <= k < it1.index@ ==> has_limit(limits@, #[trigger] raw_limits@[k]), //@C09.every_configured_limit_is_enforced
+"""}, at=[("loop_iter", None, 1, "it1:"),
+          ("after_stmt_re", r"limits\.push\(", 1, """
+            proof {
+                let l0 = limits_before__; let k0 = it1.index@;
+                assert forall|k: int| 0 <= k < k0 + 1 implies has_limit(limits@, #[trigger] raw_limits@[k]) by {
+                    if k < k0 {
+                        let i = choose|i: int| 0 <= i < l0.len() && l0[i].0 == raw_limits@[k].0 && pd(raw_limits@[k].1@) == Some(dur(l0[i].1));
+                        assert(limits@[i] == l0[i]);
+                    } else {
+                        assert(limits@[l0.len() as int].0 == raw_limits@[k].0);
+                    }
+                }
+            }"""),
+          ("before_stmt_re", r"limits\.push\(", 1, "let ghost limits_before__ = limits@;"),
+          ("before_tail", None, 1, """
+        proof {
+            assert forall|k: int| 0 <= k < raw_limits@.len() implies has_limit(limits@, #[trigger] raw_limits@[k]) by {
+                let l1 = limits_collected__;
+                let i = choose|i: int| 0 <= i < l1.len() && l1[i].0 == raw_limits@[k].0 && pd(raw_limits@[k].1@) == Some(dur(l1[i].1));
+                assert(limits_sorted__.contains(l1[i]));
+                let j = choose|j: int| 0 <= j < limits_sorted__.len() && limits_sorted__[j] == l1[i];
+                assert(limits@[limits@.len() - 1 - j] == limits_sorted__[j]);
+            }
+        }"""),
+          ("before_stmt_re", r"(?:crate::titer::sort|limits\.sort)", 1, "let ghost limits_collected__ = limits@;"),
+          ("before_stmt_re", r"limits\.reverse\(\)", 1, "let ghost limits_sorted__ = limits@;"),
+          ],
             # sort by the period: `x.1.partial_cmp(&y.1).unwrap()` / `x.1.cmp(&y.1)` with (x, y) = (a, b) is ascending, (b, a) descending;
             # sort_by_key(|e| e.1) is ascending
             rewrites=[("T-ITER", r"limits\.sort_by\(\|a, b\| (?P<x>[ab])\.1\.(?:partial_cmp\(&(?P<y>[ab])\.1\)\.unwrap\(\)|cmp\(&(?P<z>[ab])\.1\))(?:\.then(?:_with)?\((?:[^()]|\([^()]*\))*\))?\)",
                        lambda m: ("crate::titer::sort_by_duration_asc(&mut limits)" if (m.group("x"), m.group("y") or m.group("z")) == ("a", "b")
                                   else "crate::titer::sort_by_duration_desc(&mut limits)" if (m.group("x"), m.group("y") or m.group("z")) == ("b", "a")
                                   else "crate::titer::sort_unknown(&mut limits)"), None),
+                      ("T-ITER", r"limits\.dedup_by_key\(\|(?P<e>\w+)\| (?P=e)\.1\)", "crate::titer::dedup_by_duration(&mut limits)", None),
                       ("T-ITER", r"limits\.sort_by_key\(\|(?P<e>\w+)\| (?P=e)\.1\)", "crate::titer::sort_by_duration_asc(&mut limits)", None),
                       ("T-ITER", r"limits\.sort_by_key\(\|(?P<e>\w+)\| (?:std::cmp::|cmp::)?Reverse\((?P=e)\.1\)\)", "crate::titer::sort_by_duration_desc(&mut limits)", None)]),
     }
@@ -197,8 +227,9 @@ def build():
              "use crate::duration::parse_duration;")
     u.module("duration", "use crate::acme_common::error::Error;\nuse std::time::Duration;")
     u.raw("duration", """
+// duration.rs::parse_duration (unit duration): the length of a time period is a function of its text
 #[verifier::external_body]
-pub fn parse_duration(input: &str) -> Result<Duration, Error> { unimplemented!() }
+pub fn parse_duration(input: &str) -> (r: Result<Duration, Error>) ensures r matches Ok(d) ==> crate::endpoint::pd(input@) == Some(crate::dur(d)) { unimplemented!() }
 """, trusted=True)
     u.drop_derives = {"Clone", "Debug"}
     u.take(SRC, "RateLimit", "endpoint")
@@ -232,6 +263,12 @@ pub proof fn lemma_all_newer(s: Seq<Instant>, m: int)
 }
 pub open spec fn inst_fn() -> spec_fn(Instant) -> int { |i: Instant| inst(i) }
 pub open spec fn lim_fn() -> spec_fn((usize, Duration)) -> (int, int) { |p: (usize, Duration)| (p.0 as int, dur(p.1) as int) }
+// the length of a time period as a function of its text (duration.rs::parse_duration)
+pub uninterp spec fn pd(s: Seq<char>) -> Option<nat>;
+// the configured limit `raw` (number, period text) is one of the limits kept
+pub open spec fn has_limit(l: Seq<(usize, Duration)>, raw: (usize, String)) -> bool {
+    exists|i: int| 0 <= i < l.len() && (#[trigger] l[i]).0 == raw.0 && pd(raw.1@) == Some(dur(l[i].1))
+}
 pub open spec fn all_positive(s: Seq<(usize, Duration)>) -> bool {
     forall|i: int| 0 <= i < s.len() ==> (#[trigger] s[i]).0 >= 1
 }
